@@ -322,8 +322,8 @@ Proof.
   intros Hin. apply in_map_iff in Hin as (f & Hf1 & Hf2). pose proof (nthf_lt _ _ _ (Hg _ Hf2)). lia.
 Qed.
 
-Lemma PD_step y a y' E Rd P P' :
-  vstep y a y' -> PD y E Rd P -> nE (E ++ emitted [a]) + 2 < two64 ->
+Lemma PD_step b y a y' E Rd P P' :
+  vstep b y a y' -> PD y E Rd P -> nE (E ++ emitted [a]) + 2 < two64 ->
   (match a with AArrive fr => Permutation P (fr :: P') | _ => P' = P end) ->
   PD y' (E ++ emitted [a]) (Rd ++ readout [a]) P'.
 Proof.
@@ -332,7 +332,7 @@ Proof.
                  |y y' q w pay Hs1 Hs2 Hp Hr2
                  |y y' q w Hs1 Hs2 Hp Hrc
                  |y y' q w w' Hs1 Hs2 Hp Hrc
-                 |y y' l Hp Hs2 Hr2
+                 |y y' l Hbt Hp Hs2 Hr2
                  |y y' fr rb c Hr1 Hr2 Hi2 Hs2
                  |y y' rb c k d rb' Hr1 Hrd Hr2 Hi2 Hs2
                  |y y' Hs1 Hs2 Hi2 Hr2
@@ -432,7 +432,7 @@ Proof. unfold readout. cbn. now rewrite app_nil_r. Qed.
 Lemma nE_app_le E l1 l2 : nE (E ++ l1) <= nE (E ++ l1 ++ l2).
 Proof. unfold nE. rewrite !app_length. lia. Qed.
 
-Lemma PD_steps_noarr y acts y' : vsteps y acts y' -> forall E Rd P,
+Lemma PD_steps_noarr b y acts y' : vsteps b y acts y' -> forall E Rd P,
   arrivals acts = [] -> PD y E Rd P -> nE (E ++ emitted acts) + 2 < two64 ->
   PD y' (E ++ emitted acts) (Rd ++ readout acts) P.
 Proof.
@@ -448,7 +448,7 @@ Proof.
     eapply PD_step; [exact Hstep|exact Hpd|exact Hb1|]. destruct a; try reflexivity. contradiction.
 Qed.
 
-Lemma PD_steps_arr y acts y' : vsteps y acts y' -> forall E Rd fr,
+Lemma PD_steps_arr b y acts y' : vsteps b y acts y' -> forall E Rd fr,
   arrivals acts = [fr] -> PD y E Rd [fr] -> nE (E ++ emitted acts) + 2 < two64 ->
   PD y' (E ++ emitted acts) (Rd ++ readout acts) [].
 Proof.
@@ -460,7 +460,7 @@ Proof.
       try (apply IH with (fr := fr); [exact Ha| |rewrite <- app_assoc; exact Hb];
            eapply PD_step; [exact Hstep|exact Hpd|exact Hb1|reflexivity]).
     injection Ha as -> Hal.
-    apply (PD_steps_noarr _ _ _ Hrest); [exact Hal| |rewrite <- app_assoc; exact Hb].
+    apply (PD_steps_noarr _ _ _ _ Hrest); [exact Hal| |rewrite <- app_assoc; exact Hb].
     eapply PD_step; [exact Hstep|exact Hpd|exact Hb1|reflexivity].
 Qed.
 
@@ -525,14 +525,14 @@ Proof.
   (* the core part *)
   assert (Hcore : PD yc (E ++ emitted acts) (Rd ++ readout acts) []).
   { destruct Hpop as [[-> ->]|(fr & -> & Hk & Hperm & Hs1 & Hr1)].
-    - destruct Harr as [Ha|(f & Hf & _)]; [|discriminate].
-      apply (PD_steps_noarr _ _ _ Hv); assumption.
+    - destruct Harr as [[Ha _]|(f & Hf & _)]; [|discriminate].
+      apply (PD_steps_noarr _ _ _ _ Hv); assumption.
     - pose proof (PD_pop _ _ _ _ _ Hpd Hperm Hs1 Hr1) as Hpd1.
-      destruct Harr as [Ha|(f & Hf & Ha)].
-      + eapply PD_drop_P. apply (PD_steps_noarr _ _ _ Hv); eassumption.
-      + injection Hf as <-. apply (PD_steps_arr _ _ _ Hv _ _ fr); assumption. }
+      destruct Harr as [[Ha _]|(f & Hf & Ha)].
+      + eapply PD_drop_P. apply (PD_steps_noarr _ _ _ _ Hv); eassumption.
+      + injection Hf as <-. apply (PD_steps_arr _ _ _ _ Hv _ _ fr); assumption. }
   apply (PD_same_view yr); [reflexivity|unfold MuxView.sview; now rewrite sess_set_pend|unfold MuxView.rview; now rewrite sess_set_pend|].
-  apply (PD_steps_noarr _ _ _ Hv2); [exact Ha2|exact Hcore|exact Hb].
+  apply (PD_steps_noarr _ _ _ _ Hv2); [exact Ha2|exact Hcore|exact Hb].
 Qed.
 
 (* ---- a whole run ---- *)
